@@ -27,7 +27,9 @@ def check(repo: Repo, rep, tier):
     positional_map(repo, rep)
     emit_complete(repo, rep)
     insert_once(repo, rep)
-    from .C11 import align_complete, align_window
+    from .C11 import align_complete, align_window, pair_len
+
+    pair_len(repo, rep)
     from .C14 import accumulate
 
     accumulate(repo, rep)
